@@ -952,19 +952,19 @@ package sftp
 //@   property C07
 //@   results fs, err
 //@   ensures err == nil ==> fs != nil
-//@   modifies nothing
+//@   modifies ghost.extL0
 
 //@ func (*sshFxpSetstatPacket).unmarshalFileStat
 //@   property C07
 //@   results fs, err
 //@   ensures err == nil ==> fs != nil
-//@   modifies nothing
+//@   modifies ghost.extL0
 
 //@ func (*sshFxpFsetstatPacket).unmarshalFileStat
 //@   property C07
 //@   results fs, err
 //@   ensures err == nil ==> fs != nil
-//@   modifies nothing
+//@   modifies ghost.extL0
 
 //@ func (*sshFxpExtendedPacketStatVFS).respond
 //@   update after call (*Server).toLocalPath#*: ghost.lp2 = ghost.lp1
